@@ -72,7 +72,7 @@ def calc_inclination(inclination: 'FloatArray') -> 'InclinOutput':
         (3, 0) : 3001556.25*sin_i_half**6*cos_i_half**18,
         (3, 1) : 32148900.0*(-0.001302083333333333333333333*(cos_i + 1.0)**5*sin_i - sin_i_half**5*cos_i_half**7 + 0.75*sin_i_half**3*cos_i_half**9)**2,
         (3, 2) : 175032900.0*(0.0005580357142857142857142857*(cos_i + 1.0)**5*sin_i - 0.5*sin_i_half**7*cos_i_half**5 + sin_i_half**5*cos_i_half**7 - 0.4285714285714285714285714*sin_i_half**3*cos_i_half**9)**2,
-        (3, 3) : 18759726.5625*(sin_i_half**4 - sin_i_half**2 + 0.1818181818181818181818182)**2*sin_i_half**4*sin_i_double**2*cos_i_half,
+        (3, 3) : 18759726.5625*(sin_i_half**4 - sin_i_half**2 + 0.1818181818181818181818182)**2*sin_i_half**4*sin_i_double**2*cos_i_half**4,
         (3, 4) : 1032336900.0*(-0.6029411764705882352941177*sin_i_half**6 + sin_i_half**4 - 0.4117647058823529411764706*sin_i_half**2 + 0.2058823529411764705882353*cos_i_half**6)**2*sin_i_half**10*cos_i_half**2,
         (3, 5) : 243126056.25*(0.6666666666666666666666667*sin_i_half**4 - sin_i_half**2 + 0.3636363636363636363636364)**2*sin_i_half**14*cos_i_half**2,
         (3, 6) : 3001556.25*sin_i_half**18*cos_i_half**6,
